@@ -186,11 +186,15 @@ def _rand_spec(rng: random.Random, *, n_ops=None, tag_mode="any", asynciter_sche
         elif resp == "prim":
             r200["content"] = {"application/json": {"schema": dict(rng.choice(PRIMS))}}
         elif resp == "sse":
-            r200["content"] = {"text/event-stream": {"schema": {"type": "string"}}}
+            # the item type ends up inside `AsyncIterator[...]`: optional items, nested generics and named models as well as plain strings
+            r200["content"] = {"text/event-stream": {"schema": rng.choice([{"type": "string"}, {"type": "string"}, ref,
+                                                                           {"type": "array", "items": {"type": "number"}, "nullable": True},
+                                                                           {"type": "object", "additionalProperties": {"type": "integer"}, "nullable": True}])}}
         elif resp == "octet":
             r200["content"] = {"application/octet-stream": {"schema": {"type": "string", "format": "binary"}}}
         elif resp == "ndjson":
-            r200["content"] = {"application/x-ndjson": {"schema": ref}}
+            r200["content"] = {"application/x-ndjson": {"schema": rng.choice([ref, ref, {"type": "array", "items": {"type": "number"}, "nullable": True},
+                                                                             {"type": "object", "additionalProperties": {"type": "integer"}, "nullable": True}])}}
         op["responses"] = {("204" if resp == "none" else "200"): r200}
         if resp in ("ref", "array", "prim") and rng.random() < 0.25:
             # a SECONDARY 2xx response that streams next to a primary one that does not: client, Protocol and mock follow the primary
@@ -372,6 +376,13 @@ def _mutations(rng: random.Random, text: str) -> list[str]:
     m = lines[:]
     m[close] = ") -> MyAsyncIteratorThing:"
     out.append("\n".join(m))
+    # streaming return annotations with everything an annotation may contain (optional items, quoted forward references, dotted
+    # names, nested generics, unions): the decision is made on the annotation being `AsyncIterator[...]`, whatever is inside
+    for ann in ("AsyncIterator[List[float] | None]", 'AsyncIterator["Node"]', "AsyncIterator[models.Pet]", "AsyncIterator[Dict[str, Any]]",
+                "AsyncIterator[Union[Cat, Dog]]", "AsyncIterator[bytes] | None", "AsyncIterator", "AsyncIterator [bytes]"):
+        m = lines[:]
+        m[close] = f") -> {ann}:"
+        out.append("\n".join(m))
     ws = rng.choice(["\t", "\x0b", "\u00a0", "\u2003", "\x1f", " \r", "\u3000"])
     m = [(ws + l + ws if rng.random() < 0.5 else l) for l in lines]                    # odd whitespace around lines
     out.append("\n".join(m))
